@@ -129,6 +129,7 @@ pub fn project(db: &Database, opts: &ProjOpts) -> Value {
     let mut tabs = Map::new();
     let mut cols = Map::new();
     let mut ccols = Map::new();
+    let mut ctys = Map::new();
     let mut hx = Map::new();
     let mut keys: Vec<&String> = db.tables.keys().collect();
     keys.sort();
@@ -137,6 +138,10 @@ pub fn project(db: &Database, opts: &ProjOpts) -> Value {
         let name = short(k);
         tabs.insert(name.clone(), Value::Array(t.scan().iter().map(|r| row_to_json(&r.values)).collect()));
         cols.insert(name.clone(), Value::Array(t.schema.columns.iter().map(|c| json!(c.name)).collect()));
+        ctys.insert(
+            name.clone(),
+            Value::Array(t.schema.columns.iter().map(|c| json!([c.name, format!("{:?}", c.data_type), c.nullable])).collect()),
+        );
         if let Some(cs) = db.catalog.get_table(k) {
             ccols.insert(name.clone(), Value::Array(cs.columns.iter().map(|c| json!(c.name)).collect()));
         }
@@ -240,6 +245,7 @@ pub fn project(db: &Database, opts: &ProjOpts) -> Value {
         "T": Value::Object(tabs),
         "C": Value::Object(cols),
         "CC": Value::Object(ccols),
+        "CT": Value::Object(ctys),
         "tn": tn,
         "ix": ix,
         "vw": vw,
@@ -349,6 +355,92 @@ pub fn load_sql(a: &Value) -> Vec<String> {
     stmts
 }
 
+/// Save `db` in the named format under `dir` and load the file into a new database.
+pub fn save_and_load(db: &Database, fmt: &str, dir: &std::path::Path) -> Result<Database, String> {
+    let e = |x: &dyn std::fmt::Display| format!("{}", x);
+    match fmt {
+        "binary" => {
+            let p = dir.join("db.vbsql");
+            db.save_binary(&p).map_err(|x| e(&x))?;
+            Database::load_binary(&p).map_err(|x| e(&x))
+        }
+        "compressed" => {
+            let p = dir.join("db.vbsqlz");
+            db.save_compressed(&p).map_err(|x| e(&x))?;
+            Database::load_compressed(&p).map_err(|x| e(&x))
+        }
+        "json" => {
+            let p = dir.join("db.json");
+            db.save_json(&p).map_err(|x| e(&x))?;
+            Database::load_json(&p).map_err(|x| e(&x))
+        }
+        "sql" => {
+            let p = dir.join("db.sql");
+            db.save_sql_dump(&p).map_err(|x| e(&x))?;
+            vibesql_executor::load_sql_dump(&p).map_err(|x| e(&x))
+        }
+        other => Err(format!("unknown format {}", other)),
+    }
+}
+
+pub fn save_only(db: &Database, fmt: &str, dir: &std::path::Path) -> Result<std::path::PathBuf, String> {
+    let e = |x: &dyn std::fmt::Display| format!("{}", x);
+    let (name, r) = match fmt {
+        "binary" => ("db.vbsql", db.save_binary(dir.join("db.vbsql")).map_err(|x| e(&x))),
+        "compressed" => ("db.vbsqlz", db.save_compressed(dir.join("db.vbsqlz")).map_err(|x| e(&x))),
+        "json" => ("db.json", db.save_json(dir.join("db.json")).map_err(|x| e(&x))),
+        "sql" => ("db.sql", db.save_sql_dump(dir.join("db.sql")).map_err(|x| e(&x))),
+        _ => ("", Err("unknown format".to_string())),
+    };
+    r.map(|_| dir.join(name))
+}
+
+/// Concrete value for an abstract value class {"c": type class, "v": value class} (DESIGN.md Appendix E).
+pub fn class_value(v: &Value) -> vibesql_types::SqlValue {
+    use vibesql_types::SqlValue as V;
+    let c = v["c"].as_str().unwrap_or("");
+    let x = v["v"].as_str().unwrap_or("");
+    match (c, x) {
+        (_, "null") => V::Null,
+        ("int", "max") => V::Integer(i64::MAX),
+        ("int", "min") => V::Integer(i64::MIN),
+        ("int", "i32max") => V::Integer(i32::MAX as i64),
+        ("int", "neg") => V::Integer(-1),
+        ("int", _) => V::Integer(x.parse().unwrap_or(0)),
+        ("bigint", "max") => V::Bigint(i64::MAX),
+        ("bigint", "min") => V::Bigint(i64::MIN),
+        ("bigint", _) => V::Bigint(x.parse().unwrap_or(0)),
+        ("smallint", "max") => V::Smallint(i16::MAX),
+        ("smallint", "min") => V::Smallint(i16::MIN),
+        ("smallint", _) => V::Smallint(x.parse().unwrap_or(0)),
+        ("double", "nan") => V::Double(f64::NAN),
+        ("double", "inf") => V::Double(f64::INFINITY),
+        ("double", "ninf") => V::Double(f64::NEG_INFINITY),
+        ("double", "negzero") => V::Double(-0.0),
+        ("double", "max") => V::Double(f64::MAX),
+        ("double", "tiny") => V::Double(f64::MIN_POSITIVE),
+        ("double", "frac") => V::Double(0.1 + 0.2),
+        ("double", _) => V::Double(x.parse().unwrap_or(0.0)),
+        ("bool", "true") => V::Boolean(true),
+        ("bool", _) => V::Boolean(false),
+        ("str", "empty") => V::Varchar(String::new()),
+        ("str", "quote") => V::Varchar("it's \"q\"".into()),
+        ("str", "backslash") => V::Varchar("a\\b\\".into()),
+        ("str", "semicolon") => V::Varchar("a;b; c".into()),
+        ("str", "newline") => V::Varchar("line1\nline2".into()),
+        ("str", "dashdash") => V::Varchar("x\n-- not a comment\ny".into()),
+        ("str", "unicode") => V::Varchar("h\u{e9}llo \u{4e16}\u{754c} \u{1f600}".into()),
+        ("str", "nullword") => V::Varchar("NULL".into()),
+        ("str", "sqlish") => V::Varchar("'); DROP TABLE TV; --".into()),
+        ("str", "spaces") => V::Varchar("  lead and trail  ".into()),
+        ("str", _) => V::Varchar(x.to_string()),
+        ("date", _) => x.parse::<vibesql_types::Date>().map(V::Date).unwrap_or(V::Null),
+        ("time", _) => x.parse::<vibesql_types::Time>().map(V::Time).unwrap_or(V::Null),
+        ("timestamp", _) => x.parse::<vibesql_types::Timestamp>().map(V::Timestamp).unwrap_or(V::Null),
+        _ => V::Null,
+    }
+}
+
 pub struct Engine {
     pub db: Database,
     pub cfg: Config,
@@ -385,6 +477,74 @@ impl Engine {
         self.tmp = tmp;
     }
 
+    /// C20: save the current database, damage the file as the fault says, load it in a child process
+    /// (vq_load, address-space limit 3 GB, 20 s wall clock).  Outcome classes: ok | err | panic | abort | oom | hang | skip.
+    fn corrupt_load(&mut self, a: &Value) -> (Outcome, String) {
+        let fmt = a["fmt"].as_str().unwrap_or("");
+        let dir = tempfile::tempdir().expect("tempdir");
+        let path = match save_only(&self.db, fmt, dir.path()) {
+            Ok(p) => p,
+            Err(m) => return (Outcome { out: "err", cnt: 0, rows: None, msg: format!("save failed: {}", m) }, "-- save failed".into()),
+        };
+        let mut bytes = std::fs::read(&path).unwrap_or_default();
+        let n = bytes.len() as i64;
+        let f = &a["fault"];
+        let at0 = f["at"].as_i64().unwrap_or(0);
+        let at = if at0 < 0 { n + at0 } else { at0 };
+        let desc = format!("-- {} file of {} bytes, fault {}", fmt, n, f);
+        if at < 0 || at >= n.max(1) {
+            return (Outcome { out: "skip", cnt: 0, rows: None, msg: String::new() }, desc);
+        }
+        let at = at as usize;
+        match f["kind"].as_str().unwrap_or("") {
+            "trunc" => bytes.truncate(at),
+            "flip" => bytes[at] ^= 1u8 << (f["bit"].as_u64().unwrap_or(0) % 8),
+            "set" => bytes[at] = f["v"].as_u64().unwrap_or(0) as u8,
+            "set4" => {
+                // overwrite a 4-byte window (length fields are u32): v = 0 | 1 | 7fffffff | ffffffff
+                let v = u32::from_str_radix(f["v"].as_str().unwrap_or("0"), 16).unwrap_or(0).to_le_bytes();
+                for k in 0..4 {
+                    if at + k < bytes.len() {
+                        bytes[at + k] = v[k];
+                    }
+                }
+            }
+            "garbage" => {
+                let mut x: u64 = f["seed"].as_u64().unwrap_or(1) | 1;
+                for b in bytes.iter_mut().skip(at) {
+                    x ^= x << 13;
+                    x ^= x >> 7;
+                    x ^= x << 17;
+                    *b = x as u8;
+                }
+            }
+            _ => {}
+        }
+        std::fs::write(&path, &bytes).expect("write damaged file");
+        let exe = std::env::current_exe().ok().and_then(|p| p.parent().map(|d| d.join("vq_load"))).expect("vq_load path");
+        let cmd = format!("ulimit -v 3000000; exec timeout 20 {} {} {}", exe.display(), fmt, path.display());
+        let out = std::process::Command::new("sh").arg("-c").arg(&cmd).output();
+        let (cls, msg): (&'static str, String) = match out {
+            Ok(o) => {
+                let err = String::from_utf8_lossy(&o.stderr).to_string();
+                match o.status.code() {
+                    Some(0) => ("ok", String::new()),
+                    Some(1) => ("err", err),
+                    Some(3) => ("panic", err),
+                    Some(124) => ("hang", err),
+                    Some(c) => {
+                        if err.contains("memory allocation") || err.contains("capacity overflow") { ("oom", err) } else if c == 134 || c == 139 { ("abort", err) } else { ("abort", format!("exit {} {}", c, err)) }
+                    }
+                    None => {
+                        if err.contains("memory allocation") { ("oom", err) } else { ("abort", format!("signal {}", err)) }
+                    }
+                }
+            }
+            Err(e) => ("err", format!("spawn failed: {}", e)),
+        };
+        (Outcome { out: cls, cnt: 0, rows: None, msg }, desc)
+    }
+
     /// Execute one abstract action, return the event (without sc/i, which the caller adds).
     pub fn step(&mut self, a: &Value) -> Value {
         let kind = a["a"].as_str().unwrap_or("");
@@ -416,6 +576,35 @@ impl Engine {
                 let r = a["r"].as_str().unwrap_or("");
                 self.db.set_role(if r.is_empty() { None } else { Some(r.to_string()) });
                 Outcome::ok(0)
+            }
+            "saveload" => {
+                sql = format!("-- save as {} and load back", a["fmt"].as_str().unwrap_or(""));
+                let dir = tempfile::tempdir().expect("tempdir");
+                match catch_unwind(AssertUnwindSafe(|| save_and_load(&self.db, a["fmt"].as_str().unwrap_or(""), dir.path()))) {
+                    Ok(Ok(db)) => {
+                        self.db = db;
+                        self.tmp = Some(dir);
+                        Outcome::ok(0)
+                    }
+                    Ok(Err(m)) => Outcome { out: "err", cnt: 0, rows: None, msg: m },
+                    Err(_) => Outcome { out: "panic", cnt: 0, rows: None, msg: "panic in save/load".into() },
+                }
+            }
+            "corruptload" => {
+                let (o, d) = self.corrupt_load(a);
+                sql = d;
+                o
+            }
+            "apirow" => {
+                // a row of value classes inserted through the storage API (values that have no SQL literal: NaN, -0.0 ...)
+                let vals: Vec<vibesql_types::SqlValue> = a["vals"].as_array().map(|v| v.iter().map(class_value).collect()).unwrap_or_default();
+                sql = format!("-- api insert into {}: {:?}", a["t"].as_str().unwrap_or(""), vals);
+                let t = a["t"].as_str().unwrap_or("").to_string();
+                match catch_unwind(AssertUnwindSafe(|| self.db.insert_row(&t, vibesql_storage::Row::new(vals)))) {
+                    Ok(Ok(_)) => Outcome::ok(1),
+                    Ok(Err(e)) => Outcome { out: "err", cnt: 0, rows: None, msg: format!("{}", e) },
+                    Err(_) => Outcome { out: "panic", cnt: 0, rows: None, msg: "panic".into() },
+                }
             }
             "load" => {
                 let stmts = load_sql(a);
